@@ -301,8 +301,33 @@ pub fn build(spec: &CtSpec) -> Workload {
                 *totals.entry(token_id).or_insert(0) += kv;
                 secrets.push(TxOutSecrets::new(token_id, AssetBlindingFactor::zero(), kv, ValueBlindingFactor::zero()));
             }
+            // now and then another input spends an explicit output of the very asset issued here: the same generator
+            // then appears twice in the surjection domain (once as a spent output, once as an issuance)
+            if amt_opt.is_some() && p.chance(1, 4) {
+                inputs.push(txin.clone());
+                let v2 = 1 + p.below(100_000);
+                *totals.entry(asset_id).or_insert(0) += v2;
+                spent.push(TxOut { asset: Asset::Explicit(asset_id), value: Value::Explicit(v2), nonce: Nonce::Null, script_pubkey: addressable_script(&mut p), witness: TxOutWitness::default() });
+                secrets.push(TxOutSecrets::new(asset_id, AssetBlindingFactor::zero(), v2, ValueBlindingFactor::zero()));
+                txin = TxIn { previous_output: OutPoint::new(gen::txid(&mut p), p.below(8) as u32), ..Default::default() };
+            }
         }
         inputs.push(txin);
+    }
+    // ... or an EARLIER input does: a plain explicit input of an issued asset is put in front of everything
+    if p.chance(1, 4) {
+        if let Some(j) = inputs.iter().position(|i| i.has_issuance() && !i.asset_issuance.amount.is_null()) {
+            let will_blind = conf_iss.iter().any(|(k, keys)| *k == j && !*keys);
+            let (asset_id, _) = issuance_ids_ref_with(&inputs[j], will_blind);
+            let v2 = 1 + p.below(100_000);
+            *totals.entry(asset_id).or_insert(0) += v2;
+            inputs.insert(0, TxIn { previous_output: OutPoint::new(gen::txid(&mut p), p.below(8) as u32), ..Default::default() });
+            spent.insert(0, TxOut { asset: Asset::Explicit(asset_id), value: Value::Explicit(v2), nonce: Nonce::Null, script_pubkey: addressable_script(&mut p), witness: TxOutWitness::default() });
+            secrets.insert(0, TxOutSecrets::new(asset_id, AssetBlindingFactor::zero(), v2, ValueBlindingFactor::zero()));
+            for c in conf_iss.iter_mut() {
+                c.0 += 1;
+            }
+        }
     }
     // the gadget's own explicit input (its value goes to the two gadget outputs, not into the split totals)
     let gadget_vals = if spec.partial_gadget {
@@ -349,7 +374,12 @@ pub fn build(spec: &CtSpec) -> Workload {
     for (asset, value, is_fee) in outs {
         originals.push((asset, value));
         if is_fee {
-            output.push(TxOut::new_fee(value, asset));
+            let mut fee = TxOut::new_fee(value, asset);
+            // a fee output may carry a nonce (a key, even): it stays a fee output and is never blinded
+            if p.chance(1, 5) {
+                fee.nonce = if p.coin() { Nonce::Confidential(*p.pick(&pool().pks)) } else { Nonce::Explicit(p.arr32()) };
+            }
+            output.push(fee);
             receivers.push(None);
             continue;
         }
